@@ -160,8 +160,22 @@ unsafe fn cpath(p: *const c_char) -> String {
 unsafe fn set_errno(e: i32) {
     *libc::__errno_location() = e;
 }
+thread_local! {
+    static HARNESS_IO: Cell<bool> = const { Cell::new(false) };
+}
+/// run harness-side file I/O (script steps, oracles) without tracing it as the agent's
+pub fn untraced<R>(f: impl FnOnce() -> R) -> R {
+    let prev = HARNESS_IO.with(|c| c.replace(true));
+    let r = f();
+    HARNESS_IO.with(|c| c.set(prev));
+    r
+}
+fn harness_io() -> bool {
+    HARNESS_IO.try_with(|c| c.get()).unwrap_or(false)
+}
+
 fn is_watched(path: &str) -> bool {
-    if !ENABLED.load(Ordering::Relaxed) {
+    if !ENABLED.load(Ordering::Relaxed) || harness_io() {
         return false;
     }
     match DISK.try_lock() {
@@ -289,7 +303,7 @@ pub unsafe extern "C" fn close(fd: c_int) -> c_int {
 #[no_mangle]
 pub unsafe extern "C" fn write(fd: c_int, buf: *const c_void, count: size_t) -> ssize_t {
     let f = real!("write", unsafe extern "C" fn(c_int, *const c_void, size_t) -> ssize_t);
-    if !ENABLED.load(Ordering::Relaxed) {
+    if !ENABLED.load(Ordering::Relaxed) || harness_io() {
         return f(fd, buf, count);
     }
     let g = Guard::enter();
